@@ -21,7 +21,8 @@ Theorem C04_vector_compose_rec fuel s f_ level_sub cache r s' :
   match r with
   | Ok (x, cache') => valid s' x ∧ vcache_ok s' level_sub cache' ∧
         ∀ a, D s' x a = D s f_ (vsubst s level_sub a)
-  | Err e => e = ENeedsReordering ∧ is_Some (last_len s)
+  | Err e => (e = ENeedsReordering ∧ is_Some (last_len s)) ∨
+               (e = ERuntime ∧ is_Some (max_nodes s))
   end.
 Proof. exact (vector_compose_rec_spec fuel s f_ level_sub cache r s'). Qed.
 
@@ -41,7 +42,7 @@ Proof. exact (rename_level_map_spec s dvars l l'). Qed.
     is [u] read under the assignment pulled back through the level map.  The
     renaming need not be injective. *)
 Theorem C04_rename_correct s u dvars r s' :
-  Inv s → valid s u → last_len s = None →
+  Inv s → valid s u → last_len s = None → max_nodes s = None →
   rename u dvars s = (r, s') →
   (∀ x y, (x, y) ∈ dvars → is_Some (vars s !! y)) →
   ∃ x, r = Ok x ∧ Inv s' ∧ extends s s' ∧ valid s' x ∧
@@ -60,7 +61,7 @@ Example C04b_nonvacuous :
                 OApply "and" 2 (Some 3%Z) None; OApply "\/" 5 (Some 4%Z) None]
                world_empty in
   let s := world_get w 0 in
-  mem 7 s = true ∧ last_len s = None ∧
+  mem 7 s = true ∧ last_len s = None ∧ max_nodes s = None ∧
   snd (step w 0 (OCompose 7 [(0, 4%Z); (2, 2%Z)])) = Ok (VZ 10) ∧
   snd (step w 0 (ORename 7 [(0, 1); (1, 2); (2, 0)])) = Ok (VZ 10) ∧
   (let w' := fst (step w 0 (OCompose 7 [(0, 4%Z); (2, 2%Z)])) in
